@@ -124,12 +124,15 @@ structure Closed (p : List (Prim L)) : Prop where
   `step` mirrors the branches of `slide` that read `flow_config.element_labels`:
   Goto (guarded by `in`; an unknown label only logs "Invalid label" — outcome `invalidLabel`),
   ForkHead (`element_labels[label]` for every label), Abort (`element_labels[catch[-1]] + 1`),
-  Break/Continue (`element_labels[element.label] + 1`), CatchPatternFailure (push / pop).  -/
+  Break/Continue (`element_labels[element.label] + 1`), CatchPatternFailure (push / pop), and the two places of
+  `run_to_completion` that send a failing / losing head to `element_labels[catch_pattern_failure_label[-1]]`.
+  Scopes are tracked per head like `head.scope_uids` (BeginScope raises when the name is already held).  -/
 
 structure Head (L : Type) where
   pos : Nat
   handlers : List L
-  deriving Repr
+  scopes : List L := []     -- `head.scope_uids`
+  deriving Repr, DecidableEq
 
 inductive Step (L : Type) where
   | next (hs : List (Head L))   -- the head(s) that continue
@@ -137,7 +140,8 @@ inductive Step (L : Type) where
   | keyError                    -- `element_labels[...]` raised KeyError
   | invalidLabel                -- Goto to an unknown label (warning, falls through)
   | popEmpty                    -- `catch_pattern_failure_label.pop(-1)` on an empty list (IndexError)
-  deriving Repr
+  | scopeError                  -- BeginScope(n) while n is in `head.scope_uids` (ColangRuntimeError "already opened in this head")
+  deriving Repr, DecidableEq
 
 def jumpTo [DecidableEq L] (p : List (Prim L)) (h : Head L) (l : L) : Step L :=
   match lookupLabel p l with
@@ -164,7 +168,7 @@ def step [DecidableEq L] (p : List (Prim L)) (h : Head L) (cond : Bool) : Step L
       else .next [{ h with pos := h.pos + 1 }]
     | .fork _ ls =>
       match lookupAll p ls with
-      | some is => .next (is.map fun i => { pos := i, handlers := h.handlers })
+      | some is => .next (is.map fun i => { pos := i, handlers := h.handlers, scopes := h.scopes })
       | none => .keyError
     | .abort =>
       match h.handlers with
@@ -172,11 +176,25 @@ def step [DecidableEq L] (p : List (Prim L)) (h : Head L) (cond : Bool) : Step L
       | [] => .finished
     | .brk (some l) => jumpTo p h l
     | .cont (some l) => jumpTo p h l
-    | .catchFail (some l) => .next [{ pos := h.pos + 1, handlers := l :: h.handlers }]
+    | .catchFail (some l) => .next [{ h with pos := h.pos + 1, handlers := l :: h.handlers }]
     | .catchFail none =>
       match h.handlers with
-      | _ :: c => .next [{ pos := h.pos + 1, handlers := c }]
+      | _ :: c => .next [{ h with pos := h.pos + 1, handlers := c }]
       | [] => .popEmpty
+    | .specOp _ _ _ =>
+      -- `cond = false`: the pattern failed / the head lost an action conflict (run_to_completion):
+      -- `head.position = element_labels[catch_pattern_failure_label[-1]]`, or the flow is aborted
+      if cond then .next [{ h with pos := h.pos + 1 }]
+      else
+        match h.handlers with
+        | l :: _ =>
+          match lookupLabel p l with
+          | some i => .next [{ h with pos := i }]
+          | none => .keyError
+        | [] => .finished
+    | .beginScope n =>
+      if n ∈ h.scopes then .scopeError else .next [{ h with pos := h.pos + 1, scopes := n :: h.scopes }]
+    | .endScope n => .next [{ h with pos := h.pos + 1, scopes := h.scopes.erase n }]
     | .ret => .finished
     | _ => .next [{ h with pos := h.pos + 1 }]
 
@@ -186,8 +204,33 @@ def HeadOK (p : List (Prim L)) (h : Head L) : Prop :=
 
 /-- heads reachable from the start of the flow by any sequence of `step`s (any branch outcomes) -/
 inductive Reach [DecidableEq L] (p : List (Prim L)) : Head L → Prop where
-  | start : Reach p { pos := 0, handlers := [] }
+  | start : Reach p { pos := 0, handlers := [], scopes := [] }
   | step (h : Head L) (c : Bool) (hs : List (Head L)) (h' : Head L) :
       Reach p h → step p h c = .next hs → h' ∈ hs → Reach p h'
+
+/-- executable path follower: at each step an outcome for the condition and the index of the continuing head -/
+def runPath [DecidableEq L] (p : List (Prim L)) : Head L → List (Bool × Nat) → Option (Head L)
+  | h, [] => some h
+  | h, (c, k) :: rest =>
+    match step p h c with
+    | .next hs =>
+      match hs[k]? with
+      | some h' => runPath p h' rest
+      | none => none
+    | _ => none
+
+/-- the real expansion (labels shortened) of `while c: when Ev(): send ..  else: send ..` — witness program of the open
+    finding `2.x:scope-reopened`; the harness compares it with what `expand_elements` produces on every run -/
+def whenElseInLoop : List (Prim String) :=
+  [.label "wb", .goto "we",
+   .beginScope "s", .fork "cf" ["init_a"],
+   .label "init_a", .catchFail (some "fail_a"), .fork "gf" ["group_a_0"],
+   .label "group_a_0", .specOp "match" false false, .goto "case_a",
+   .label "case_a", .merge "cf", .catchFail none, .endScope "s", .specOp "send" false false, .goto "when_end",
+   .label "fail_a", .waitHeads 1, .catchFail none, .goto "when_else",
+   .label "when_else", .waitHeads 1, .goto "when_else_stmt",
+   .label "when_else_stmt", .specOp "send" false false,
+   .label "when_end",
+   .goto "wb", .label "we"]
 
 end NemoVerif.Closed
